@@ -1,21 +1,37 @@
-"""C13 (STATE part) — client id -> active connection is a partial function consistent with the
-sessions; a resumed Setup hands the stored session over (MemoryBackend).  The protocol /
-liveness part of C13 (order of Closed and CONNACK, concurrent contenders, nothing blocked) is
-not covered by this check yet."""
+"""C13 — at most one live connection per client id; takeover keeps the session intact.
+State part: client id -> active connection is a partial function consistent with the sessions, a
+resumed Setup hands the stored session over (MemoryBackend model, Broker/Backend.v).
+Protocol part: whole-broker runs with simultaneous CONNECTs for one id (go/cmd/system c13)."""
 import os
 import sys
 sys.path.insert(0, os.path.dirname(os.path.abspath(__file__)))
 import mb_common  # noqa: E402
+import _sys  # noqa: E402
 
 ASSUMPTIONS = [
     "Setup is modelled as OSetup (old connection closed, setup mutex held) / OSetupEnd (old connection Closed, or kill timeout)",
-    "a connection reaches Closed only after its Terminate (broker/client.go cleanup order); a *Client calls Setup once",
+    "a connection reaches Closed only after its Terminate (broker/client.go cleanup order, C12_will / C14_lifecycle); a *Client calls Setup once",
     "the uniqueness invariant is stated (and proved) for histories without kill timeout and without backend Close: Terminate removes the "
     "active-clients entry by client id, so a newcomer whose Setup failed removes the old connection's entry "
     "(C13_unique_state_kill_timeout_refuted / _close_refuted; reproduced on the real backend); the invariant is also evaluated on every "
     "observed state of the implementation in such histories",
+    "sync.Mutex (global and setup mutex of MemoryBackend) makes each backend method an atomic step; whole-broker scenarios sample schedules; "
+    "'no goroutine blocked' and the real-time kill timeout are runtime claims (watchdogs), not theorems",
 ]
 
 
 def run(ck):
+    # whole broker: simultaneous CONNECTs with one id, handover, the open known finding's witness
+    ex = _sys.run_sys(ck, "c13")
+    sys_eval = ck.stats.get("direct_clauses_evaluated", 0)
+    sys_scn = ck.stats.get("scenarios", 0)
     mb_common.run_mb(ck, {"unique", "handover"}, box_clauses={"delivery"})
+    ck.evaluations += sys_eval
+    ck.distinct += sys_scn
+    if ex:
+        ck.samples = [l for l in ex if l.startswith("direct ")][:3] + ck.samples[:4]
+    ck.rule += ("; plus whole-broker scenarios (Engine + MemoryBackend over TCP loopback): rounds of 2..8 simultaneous CONNECTs with the id of a "
+                "live persistent session (old connection idle / mid-handshake / under traffic / dying), clean and unclean mixed: exactly_one, "
+                "will_once, not_stalled, lifecycle, shutdown; session handover (session-present, every queued/in-flight message exactly once, "
+                "retransmissions flagged dup); staggered contenders with gated Terminate; takeover landing between Dequeue and SavePacket; "
+                "the open known finding (old connection blocked in a carrier write) is replayed")
